@@ -780,13 +780,29 @@ impl<'r> VGen<'r> {
                 }
             }
             10 | 11 => {
-                out.push_str(&format!("{}if ({})\n{}{{\n", ind, self.exact(T::Bool, 1, d, scope), ind));
-                self.block(depth - 1, &mut scope.clone(), in_loop, ret, &inner, out);
-                out.push_str(&format!("{}}}\n", ind));
-                if self.rng.chance(1, 2) {
-                    out.push_str(&format!("{}else\n{}{{\n", ind, ind));
-                    self.block(depth - 1, &mut scope.clone(), in_loop, ret, &inner, out);
-                    out.push_str(&format!("{}}}\n", ind));
+                // either side is sometimes empty (`{ }`, `;`, `{ { } }`); an empty then-side always has an else
+                out.push_str(&format!("{}if ({})\n", ind, self.exact(T::Bool, 1, d, scope)));
+                let empty_then = self.rng.chance(1, 5);
+                let has_else = empty_then || self.rng.chance(1, 2);
+                let empty_else = has_else && !empty_then && self.rng.chance(1, 5);
+                for (side, empty) in [(0, empty_then), (1, empty_else)] {
+                    if side == 1 {
+                        if !has_else {
+                            break;
+                        }
+                        out.push_str(&format!("{}else\n", ind));
+                    }
+                    if empty {
+                        match self.rng.below(3) {
+                            0 => out.push_str(&format!("{}{{\n{}}}\n", ind, ind)),
+                            1 => out.push_str(&format!("{};\n", inner)),
+                            _ => out.push_str(&format!("{}{{\n{}{{\n{}}}\n{}}}\n", ind, inner, inner, ind)),
+                        }
+                    } else {
+                        out.push_str(&format!("{}{{\n", ind));
+                        self.block(depth - 1, &mut scope.clone(), in_loop, ret, &inner, out);
+                        out.push_str(&format!("{}}}\n", ind));
+                    }
                 }
             }
             12 => {
